@@ -251,7 +251,7 @@ Proof.
     - apply build_perm; [exact Pm|]. apply Forall_forall. intros kp _. apply PF_entry_ok. }
   split.
   - intros nm. rewrite !processSchema_unfold. destruct d as [d|]; [|cbn; auto].
-    apply requiv_bind; [|intros; apply requiv_refl].
+    apply requiv_bind; [|intros; unfold finish, inputTypeValidForTypeComponent, inputTypeString; cbn [s_type s_oneof]; apply requiv_refl].
     unfold components_of. destruct (bytes_eqb t jsonObjectType); [exact B|].
     destruct (bytes_eqb t jsonArrayType); [|apply requiv_refl].
     destruct items as [x|], items' as [y|]; cbn in Ri; try tauto; try (cbn; auto; fail).
